@@ -19,6 +19,7 @@ func init() {
 func checkC18(p *load.Program, r *kit.Report) {
 	importRules(p, r, "C01", "`on the current best chain` is relative to the branch with the most accumulated work: the work stored with a header is its own value, never shared with the header it forks from", 4, nil, "WORK-FLOW")
 	importRules(p, r, "C09", "the height reported for a verified proof is the label stored for the header's hash", 11, nil, "HEIGHT-LABEL")
+	importRules(p, r, "C09", "a proof for a pruned height is compared with header(height) read from the 1000-header files: anything the repository caches from those files must be refreshed whenever they are rewritten, or a block that was invalidated and replaced keeps verifying as best chain", 1, nil, "NEW-STATE")
 	importRules(p, r, "C08", "CheckHeader treats every entry of the hash→height map as a known header: a refused header must leave no entry", 12, nil, "NO-EFFECT-BEFORE-ERROR")
 	importRules(p, r, "C11", "a header the repository does not know must make the proof fail: load must not register the hashes of side branches it drops, or their headers verify as pruned history", 1,
 		func(o *kit.Obligation) bool { return strings.HasPrefix(o.Construct, "load/heights-only") }, "ORDER")
